@@ -37,6 +37,7 @@ TEMPLATES = {
     'unparsed+groups+formats': ['u', 'g1', 'f1'],
     'groups+unparsed+formats': ['g1', 'u', 'f1'],
     'supported_versions': ['v'],
+    'groups+groups': ['g1', 'g1'],         # the same extension twice: the published algorithm keeps the LAST one
 }
 
 
